@@ -1,1 +1,447 @@
-// contracts needing private items of src/dna_string.rs
+// Kani contracts / bounded stand-ins for src/dna_string.rs (private items reachable from here).
+//   d_count_diff            complete (all pairs of words)
+//   everything named *_b*   BOUNDED stand-in (bound in the name / comment) - never counted as proved
+
+use super::*;
+use crate::verif::src::Src;
+use crate::verif::tables::{spec_code, spec_letter};
+use crate::verif::{chk, harness};
+use std::fmt::Write as FmtWrite;
+
+/// build a DnaString from raw words (private fields)
+pub fn mk_dna(words: Vec<u64>, len: usize) -> DnaString {
+    DnaString { storage: words, len }
+}
+
+pub fn raw_lane(w: u64, j: usize) -> u8 {
+    ((w >> (62 - 2 * j)) & 3) as u8
+}
+
+pub fn spec_word_diff(a: u64, b: u64) -> u32 {
+    let mut n = 0u32;
+    let mut j = 0;
+    while j < 32 {
+        if raw_lane(a, j) != raw_lane(b, j) {
+            n += 1;
+        }
+        j += 1;
+    }
+    n
+}
+
+/// count_diff_2_bit_packed(a, b) == number of differing lanes, all 2^128 pairs.
+pub fn c_count_diff<S: Src>(s: &mut S) {
+    let a = s.u64();
+    let b = s.u64();
+    s.cover(a != b);
+    chk!(s, count_diff_2_bit_packed(a, b) == spec_word_diff(a, b), "count_diff_2_bit_packed counts differing lanes");
+}
+
+/// Fixed-capacity fmt::Write sink
+pub struct Sink {
+    pub buf: [u8; 16],
+    pub n: usize,
+}
+
+impl std::fmt::Write for Sink {
+    fn write_str(&mut self, s: &str) -> std::fmt::Result {
+        let b = s.as_bytes();
+        let mut i = 0;
+        while i < b.len() {
+            if self.n < 16 {
+                self.buf[self.n] = b[i];
+            }
+            self.n += 1;
+            i += 1;
+        }
+        Ok(())
+    }
+}
+
+/// BOUNDED (length exactly 1024 = 32 words; the two strings differ only inside word 0):
+/// DnaStringSlice::hamming_dist equals the number of differing positions. Paired counterexample
+/// harness for the unbounded Verus contract of hamming_dist.
+pub fn c_slice_hamming_1024<S: Src>(s: &mut S) {
+    // only word 0 is symbolic (the rest are A): keeps the 1024-iteration tail loop cheap for CBMC
+    let mut wa = vec![0u64; 32];
+    wa[0] = s.u64();
+    let mut wb = vec![0u64; 32];
+    wb[0] = s.u64();
+    let expect = spec_word_diff(wa[0], wb[0]);
+    s.cover(expect == 1);
+    let a = DnaString { storage: wa, len: 1024 };
+    let b = DnaString { storage: wb, len: 1024 };
+    let sa = a.slice(0, 1024);
+    let sb = b.slice(0, 1024);
+    chk!(s, sa.hamming_dist(&sb) == expect, "slice hamming_dist counts differing positions (length 1024)");
+}
+
+/// BOUNDED (length <= 40, arbitrary offsets into 3-word strings, both strands):
+pub fn c_slice_hamming_40<S: Src>(s: &mut S) {
+    let wa = vec![s.u64(), s.u64(), s.u64()];
+    let wb = vec![s.u64(), s.u64(), s.u64()];
+    let a = DnaString { storage: wa, len: 96 };
+    let b = DnaString { storage: wb, len: 96 };
+    let len = s.usize();
+    let oa = s.usize();
+    let ob = s.usize();
+    s.assume(len <= 40 && oa <= 96 - len && ob <= 96 - len);
+    let ra = s.bool();
+    s.cover(len == 40 && oa == 17);
+    let mut sa = a.slice(oa, oa + len);
+    if ra {
+        sa = sa.rc();
+    }
+    let sb = b.slice(ob, ob + len);
+    let mut n = 0u32;
+    let mut i = 0;
+    while i < len {
+        if sa.get(i) != sb.get(i) {
+            n += 1;
+        }
+        i += 1;
+    }
+    chk!(s, sa.hamming_dist(&sb) == n, "slice hamming_dist counts differing positions (length <= 40)");
+}
+
+/// BOUNDED (3 bases): Debug and Display of a slice render the slice's own bases (reverse
+/// complemented when so flagged).
+pub fn c_slice_render_3<S: Src>(s: &mut S) {
+    let w = s.u64();
+    s.assume(w & ((1u64 << 58) - 1) == 0);
+    let a = DnaString { storage: vec![w], len: 3 };
+    let rc = s.bool();
+    let dbg = s.bool();
+    s.cover(rc && dbg);
+    let mut sl = a.slice(0, 3);
+    if rc {
+        sl = sl.rc();
+    }
+    let mut sink = Sink { buf: [0; 16], n: 0 };
+    if dbg {
+        let _ = write!(sink, "{:?}", sl);
+    } else {
+        let _ = write!(sink, "{}", sl);
+    }
+    chk!(s, sink.n == 3, "rendering has one character per base");
+    let mut i = 0;
+    while i < 3 {
+        let base = if rc { 3 - raw_lane(w, 2 - i) } else { raw_lane(w, i) };
+        chk!(s, sink.buf[i] == spec_letter(base), "rendering spells the slice's bases (rc when flagged)");
+        i += 1;
+    }
+}
+
+
+/// wf of a raw (words, len) pair: exactly ceil(len/32) words, padding lanes zero
+pub fn spec_wf(words: &[u64], len: usize) -> bool {
+    if words.len() != (len + 31) / 32 {
+        return false;
+    }
+    if len % 32 != 0 {
+        let used = len % 32;
+        if (words[words.len() - 1] << (2 * used)) != 0 {
+            return false;
+        }
+    }
+    true
+}
+
+pub fn spec_base(words: &[u64], i: usize) -> u8 {
+    raw_lane(words[i / 32], i % 32)
+}
+
+/// lexicographic order of the base sequences, proper prefix first
+pub fn spec_lex(wa: &[u64], la: usize, wb: &[u64], lb: usize) -> std::cmp::Ordering {
+    let mut i = 0;
+    while i < la && i < lb {
+        let x = spec_base(wa, i);
+        let y = spec_base(wb, i);
+        if x < y {
+            return std::cmp::Ordering::Less;
+        }
+        if x > y {
+            return std::cmp::Ordering::Greater;
+        }
+        i += 1;
+    }
+    la.cmp(&lb)
+}
+
+fn any_dna<S: Src>(s: &mut S, max_words: usize) -> (Vec<u64>, usize) {
+    let len = s.usize();
+    s.assume(len <= 32 * max_words);
+    let nw = (len + 31) / 32;
+    let mut w = Vec::new();
+    let mut i = 0;
+    while i < max_words {
+        let x = s.u64();
+        if i < nw {
+            w.push(x);
+        }
+        i += 1;
+    }
+    s.assume(spec_wf(&w, len));
+    (w, len)
+}
+
+/// BOUNDED (<= 2 words = 64 bases each): derived ==, cmp and Hash of DnaString depend only on the base
+/// sequence; cmp is lexicographic with a proper prefix first. Catches a changed derive list / field order
+/// and any reliance on padding.
+pub fn c_dna_eq_ord_hash_b2<S: Src>(s: &mut S) {
+    let (wa, la) = any_dna(s, 2);
+    let (wb, lb) = any_dna(s, 2);
+    let want = spec_lex(&wa, la, &wb, lb);
+    s.cover(want == std::cmp::Ordering::Equal && la == 33);
+    s.cover(want == std::cmp::Ordering::Less && la > lb);
+    let a = DnaString { storage: wa, len: la };
+    let b = DnaString { storage: wb, len: lb };
+    chk!(s, a.cmp(&b) == want, "DnaString cmp is lexicographic on bases, proper prefix first");
+    chk!(s, (a == b) == (want == std::cmp::Ordering::Equal), "DnaString == holds exactly for equal base sequences");
+    chk!(s, a.partial_cmp(&b) == Some(want), "DnaString partial_cmp agrees with cmp");
+    if want == std::cmp::Ordering::Equal {
+        let mut ha = crate::verif::kmers::RecHasher::new();
+        let mut hb = crate::verif::kmers::RecHasher::new();
+        std::hash::Hash::hash(&a, &mut ha);
+        std::hash::Hash::hash(&b, &mut hb);
+        chk!(s, ha.n <= 64, "hash stream recorded completely");
+        chk!(s, ha.n == hb.n && ha.buf == hb.buf, "equal base sequences feed the same bytes to any Hasher");
+    }
+}
+
+/// complete (all pairs of words): unsigned comparison of two packed words is the lexicographic
+/// comparison of their 32 lanes - the word-level fact behind DnaString/k-mer ordering.
+pub fn c_word_order<S: Src>(s: &mut S) {
+    let a = s.u64();
+    let b = s.u64();
+    s.cover(a != b);
+    let wa = [a];
+    let wb = [b];
+    chk!(s, a.cmp(&b) == spec_lex(&wa, 32, &wb, 32), "u64 order of packed words is lane-lexicographic");
+}
+
+harness!(d_dna_eq_ord_hash_b2, c_dna_eq_ord_hash_b2, unwind 70);
+harness!(d_word_order, c_word_order, unwind 34);
+
+fn draw_bytes<S: Src, const N: usize>(s: &mut S, bases: bool) -> [u8; N] {
+    let mut buf = [0u8; N];
+    let mut i = 0;
+    while i < N {
+        buf[i] = s.u8();
+        if bases {
+            s.assume(buf[i] < 4);
+        }
+        i += 1;
+    }
+    buf
+}
+
+fn view_ok(d: &DnaString) -> bool {
+    spec_wf(&d.storage, d.len)
+}
+
+/// BOUNDED (prefix <= 32 bases built directly as a well-formed value, then <= 37 appended items so that the
+/// per-base path, a whole 32-chunk and a remainder all occur): extend appends exactly the items.
+pub fn c_extend_b<S: Src>(s: &mut S) {
+    let (w, len) = any_dna(s, 1);
+    let buf: [u8; 37] = draw_bytes(s, true);
+    let n = s.usize();
+    s.assume(n <= 37);
+    let j = s.usize();
+    s.assume(j < len + n);
+    s.cover(len == 30 && n == 37);
+    let old = w.clone();
+    let mut d = DnaString { storage: w, len };
+    d.extend(buf[..n].iter().cloned());
+    chk!(s, d.len == len + n, "extend: length grows by the number of items");
+    chk!(s, view_ok(&d), "extend keeps the string well formed (word count, zero padding)");
+    let want = if j < len { spec_base(&old, j) } else { buf[j - len] };
+    chk!(s, spec_base(&d.storage, j) == want, "extend: old bases kept, new bases are the items in order");
+}
+
+/// BOUNDED (<= 40 bases): rc / reverse / to_bytes / to_ascii_vec agree with the plain vector.
+pub fn c_rc_reverse_b<S: Src>(s: &mut S) {
+    let (w, len) = any_dna(s, 2);
+    s.assume(len <= 40);
+    let j = s.usize();
+    s.assume(j < len);
+    s.cover(len == 40);
+    let d = DnaString { storage: w.clone(), len };
+    let r = crate::Mer::rc(&d);
+    chk!(s, r.len == len && view_ok(&r), "rc keeps the length and is well formed");
+    chk!(s, spec_base(&r.storage, j) == 3 - spec_base(&w, len - 1 - j), "rc: position i <-> n-1-i, base b -> 3-b");
+    let v = d.reverse();
+    chk!(s, v.len == len && view_ok(&v), "reverse keeps the length and is well formed");
+    chk!(s, spec_base(&v.storage, j) == spec_base(&w, len - 1 - j), "reverse: position i <-> n-1-i");
+}
+
+pub fn c_to_bytes_b<S: Src>(s: &mut S) {
+    let (w, len) = any_dna(s, 2);
+    s.assume(len <= 40);
+    let j = s.usize();
+    s.assume(j < len);
+    s.cover(len == 33);
+    let d = DnaString { storage: w.clone(), len };
+    let b = d.to_bytes();
+    let a = d.to_ascii_vec();
+    chk!(s, b.len() == len && a.len() == len, "to_bytes / to_ascii_vec have one entry per base");
+    chk!(s, b[j] == spec_base(&w, j), "to_bytes: entry j is base j");
+    chk!(s, a[j] == spec_letter(spec_base(&w, j)), "to_ascii_vec: entry j is the letter of base j");
+}
+
+/// BOUNDED (<= 70 bytes: zero, one and two vector blocks plus a tail; vector path taken and not taken):
+/// from_acgt_bytes maps every byte like base_to_bits, whichever internal path handles it.
+pub fn c_from_acgt_bytes_b<S: Src>(s: &mut S) {
+    let buf: [u8; 70] = draw_bytes(s, false);
+    let n = s.usize();
+    s.assume(n <= 70);
+    let j = s.usize();
+    s.assume(j < n);
+    s.cover(n == 70);
+    s.cover(n == 64);
+    let d = DnaString::from_acgt_bytes(&buf[..n]);
+    chk!(s, d.len == n, "from_acgt_bytes: one base per byte");
+    chk!(s, view_ok(&d), "from_acgt_bytes result is well formed");
+    let want = match spec_code(buf[j]) {
+        Some(c) => c,
+        None => 0,
+    };
+    chk!(s, spec_base(&d.storage, j) == want, "from_acgt_bytes: base j is the code of byte j, non-ACGT -> A");
+}
+
+/// BOUNDED (<= 6 bytes): the strict constructor returns exactly the maximal ACGT runs.
+pub fn c_from_dna_only_b<S: Src>(s: &mut S) {
+    let buf: [u8; 6] = draw_bytes(s, false);
+    let n = s.usize();
+    s.assume(n <= 6);
+    let mut i = 0;
+    while i < 6 {
+        s.assume(buf[i] < 128); // ASCII text (a &str)
+        i += 1;
+    }
+    s.cover(n == 6);
+    let text = match std::str::from_utf8(&buf[..n]) {
+        Ok(t) => t,
+        Err(_) => return,
+    };
+    let runs = DnaString::from_dna_only_string(text);
+    // reference: scan for maximal runs
+    let mut r = 0usize; // run index
+    let mut pos_in_run = 0usize;
+    let mut k = 0;
+    while k < n {
+        match spec_code(buf[k]) {
+            Some(c) => {
+                chk!(s, r < runs.len(), "from_dna_only_string: a run exists for every ACGT stretch");
+                if r < runs.len() {
+                    chk!(s, pos_in_run < runs[r].len, "from_dna_only_string: run long enough");
+                    if pos_in_run < runs[r].len {
+                        chk!(s, spec_base(&runs[r].storage, pos_in_run) == c, "from_dna_only_string: run spells the ACGT letters");
+                    }
+                }
+                pos_in_run += 1;
+            }
+            None => {
+                if pos_in_run > 0 {
+                    if r < runs.len() {
+                        chk!(s, runs[r].len == pos_in_run, "from_dna_only_string: run ends at the first non-ACGT byte");
+                    }
+                    r += 1;
+                    pos_in_run = 0;
+                }
+            }
+        }
+        k += 1;
+    }
+    if pos_in_run > 0 {
+        if r < runs.len() {
+            chk!(s, runs[r].len == pos_in_run, "from_dna_only_string: last run ends at the end of input");
+        }
+        r += 1;
+    }
+    chk!(s, runs.len() == r, "from_dna_only_string: exactly the maximal ACGT runs, no empty strings");
+}
+
+/// BOUNDED (<= 5 bases per sequence, 2 sequences): PackedDnaStringSet::add / get return every added
+/// sequence unchanged at its index.
+pub fn c_packed_add_b<S: Src>(s: &mut S) {
+    let a: [u8; 5] = draw_bytes(s, true);
+    let b: [u8; 5] = draw_bytes(s, true);
+    let na = s.usize();
+    let nb = s.usize();
+    s.assume(na <= 5 && nb <= 5);
+    let j = s.usize();
+    s.cover(na == 5 && nb == 5);
+    let mut set = PackedDnaStringSet::new();
+    set.add(a[..na].iter());
+    set.add(b[..nb].iter());
+    chk!(s, set.len() == 2, "two sequences stored");
+    let g0 = set.get(0);
+    let g1 = set.get(1);
+    chk!(s, crate::Mer::len(&g0) == na && crate::Mer::len(&g1) == nb, "stored lengths");
+    if j < na {
+        chk!(s, crate::Mer::get(&g0, j) == a[j], "sequence 0 returned unchanged");
+    }
+    if j < nb {
+        chk!(s, crate::Mer::get(&g1, j) == b[j], "sequence 1 returned unchanged after a later add");
+    }
+}
+
+/// BOUNDED (1-word strings): quick variant of the eq/ord/hash law.
+pub fn c_dna_eq_ord_hash_b1<S: Src>(s: &mut S) {
+    let (wa, la) = any_dna(s, 1);
+    let (wb, lb) = any_dna(s, 1);
+    let want = spec_lex(&wa, la, &wb, lb);
+    s.cover(want == std::cmp::Ordering::Equal && la == 7);
+    s.cover(want == std::cmp::Ordering::Less && la > lb);
+    let a = DnaString { storage: wa, len: la };
+    let b = DnaString { storage: wb, len: lb };
+    chk!(s, a.cmp(&b) == want, "DnaString cmp is lexicographic on bases, proper prefix first");
+    chk!(s, (a == b) == (want == std::cmp::Ordering::Equal), "DnaString == holds exactly for equal base sequences");
+}
+
+harness!(d_extend_b, c_extend_b, unwind 40);
+harness!(d_rc_reverse_b, c_rc_reverse_b, unwind 42);
+harness!(d_to_bytes_b, c_to_bytes_b, unwind 42);
+harness!(d_from_dna_only_b, c_from_dna_only_b, unwind 8);
+harness!(d_packed_add_b, c_packed_add_b, unwind 8);
+harness!(d_dna_eq_ord_hash_b1, c_dna_eq_ord_hash_b1, unwind 36);
+
+#[cfg(kani)]
+fn nondet_feature() -> bool {
+    kani::any()
+}
+
+#[cfg(kani)]
+#[kani::proof]
+#[kani::unwind(72)]
+#[kani::stub(std::arch::x86_64::_mm256_shuffle_epi8, crate::bitops_avx2::verif::model_shuffle_epi8)]
+#[kani::stub(std::arch::x86_64::_mm256_testc_si256, crate::bitops_avx2::verif::model_testc_si256)]
+#[kani::stub(std_detect::detect::__is_feature_detected::avx2, nondet_feature)]
+pub fn d_from_acgt_bytes_b() {
+    c_from_acgt_bytes_b(&mut crate::verif::src::KSrc)
+}
+harness!(d_count_diff, c_count_diff, unwind 34);
+harness!(d_slice_hamming_1024, c_slice_hamming_1024, unwind 1027);
+// d_slice_hamming_40 (symbolic length) exhausts memory in CBMC 6.11: not registered.
+harness!(d_slice_render_3, c_slice_render_3, unwind 18);
+
+pub fn replay(name: &str, s: &mut crate::verif::src::RSrc) -> bool {
+    match name {
+        "d_count_diff" => c_count_diff(s),
+        "d_extend_b" => c_extend_b(s),
+        "d_rc_reverse_b" => c_rc_reverse_b(s),
+        "d_to_bytes_b" => c_to_bytes_b(s),
+        "d_from_acgt_bytes_b" => c_from_acgt_bytes_b(s),
+        "d_from_dna_only_b" => c_from_dna_only_b(s),
+        "d_packed_add_b" => c_packed_add_b(s),
+        "d_dna_eq_ord_hash_b1" => c_dna_eq_ord_hash_b1(s),
+        "d_dna_eq_ord_hash_b2" => c_dna_eq_ord_hash_b2(s),
+        "d_word_order" => c_word_order(s),
+        "d_slice_hamming_1024" => c_slice_hamming_1024(s),
+        "d_slice_hamming_40" => c_slice_hamming_40(s),
+        "d_slice_render_3" => c_slice_render_3(s),
+        _ => return false,
+    }
+    true
+}
